@@ -112,7 +112,17 @@ def strategy(tier):
             c["kbc"] = "far"
         return c
 
-    return st.one_of(dense(), dense(), sparse())
+    @st.composite
+    def sparse_diag(draw):
+        # generic sparse pencils that are not FE matrices: a DIAGONAL sparse A (lumped / modal stiffness) with a
+        # non-diagonal positive definite B (or no B), a shift inside the spectrum
+        return {"path": "sparse_diag", "n": draw(st.integers(6, 14 if big else 10)), "gen": draw(st.booleans()),
+                "fmt": draw(st.sampled_from(["csc", "csr", "dia"])), "nmodes": draw(st.integers(1, 4)),
+                "sigma_idx": draw(st.integers(0, 12)), "sigma_zero": draw(st.sampled_from([False, False, True])),
+                "sorter": draw(st.sampled_from(["default", "desc"])), "hint": draw(st.booleans()),
+                "payload_seed": draw(SEED)}
+
+    return st.one_of(dense(), dense(), sparse(), sparse(), sparse(), sparse_diag())
 
 
 def nontrivial(labels):
@@ -307,7 +317,74 @@ def build_dense(case):
 def check_case(case):
     if case["path"] == "dense":
         return _check_dense(case)
+    if case["path"] == "sparse_diag":
+        return _check_sparse_diag(case)
     return _check_sparse(case)
+
+
+def _check_sparse_diag(case):
+    import pymoto as pym
+    import scipy.sparse as sps
+    import scipy.linalg as sla
+    rng = np.random.default_rng(case["payload_seed"])
+    n, gen, k = case["n"], case["gen"], case["nmodes"]
+    labels = ["sparse", "diagonal_A", "generalised" if gen else "standard", "real", f"nmodes_{k}", "n>=3",
+              "nondiagonal" if gen else "diagonal_pencil"]
+    d = 1.0 + np.cumsum(0.5 + rng.random(n))                    # distinct positive diagonal
+    rng.shuffle(d)
+    Ad = np.diag(d)
+    Bd = None
+    if gen:
+        off = 0.2 + 0.3 * rng.random(n - 1)
+        Bd = np.diag(1.5 + rng.random(n)) + np.diag(off, 1) + np.diag(off, -1)      # strictly diagonally dominant: SPD
+    ref = np.sort(sla.eigh(Ad, Bd, eigvals_only=True))
+    gaps = np.flatnonzero(np.diff(ref) > 1e-3 * ref[-1])
+    if case["sigma_zero"] or len(gaps) == 0:
+        sigma = 0.0
+    else:
+        i = int(gaps[case["sigma_idx"] % len(gaps)])
+        sigma = float(ref[i] + 0.3 * (ref[i + 1] - ref[i]))
+    labels.append("sigma_zero" if sigma == 0.0 else "sigma_shift")
+    V = []
+    tag = "sparse:hermitian"
+
+    def bad(sub, detail):
+        V.append(viol(f"C11:{sub}", f"{detail} | diagonal A, n={n} gen={gen} fmt={case['fmt']} sigma={sigma} nmodes={k} "
+                                    f"sorter={case['sorter']}"))
+    mk = {"csc": sps.csc_matrix, "csr": sps.csr_matrix, "dia": sps.dia_matrix}[case["fmt"]]
+    sigs = [pym.Signal("A", mk(Ad))] + ([pym.Signal("B", sps.csc_matrix(Bd))] if gen else [])
+    target = sigma + 0.1 * ref[-1]
+    fn = _sorter(case["sorter"], target)
+    kwargs = {"nmodes": k, "sigma": sigma}
+    if fn is not None:
+        kwargs["sorting_func"] = fn
+    if case["hint"]:
+        kwargs["hermitian"] = True
+    try:
+        mod = pym.EigenSolve(sigs, **kwargs)
+        mod.response()
+        W, Q = [np.asarray(s.state) for s in mod.sig_out]
+    except Exception as e:
+        bad(f"raises:{tag}:{type(e).__name__}", repr(e)[:500])
+        return labels, V
+    if W.shape != (k,) or Q.shape != (n, k):
+        bad(f"count:{tag}", f"shapes W{W.shape} Q{Q.shape}, expected ({k},) ({n},{k})")
+        return labels, V
+    if not (np.all(np.isfinite(W)) and np.all(np.isfinite(Q))):
+        bad(f"finite:{tag}", "non-finite eigenvalues or eigenvectors")
+        return labels, V
+    _common_checks(bad, tag, Ad, Bd, W, Q, case["sorter"], target, fn, True)
+    dist = np.abs(ref - sigma)
+    order = np.argsort(dist)
+    want = ref[order[:k]]
+    dk, dnext = dist[order[k - 1]], dist[order[k]]
+    if (dnext - dk) > 1e-3 * max(dk, 1e-3 * ref[-1]):
+        dmax = _match(W, want)
+        if dmax > TOL_EIG_SPARSE * ref[-1]:
+            bad(f"closest_to_sigma:{tag}", f"returned {np.array2string(np.sort_complex(W), precision=6)} but the {k} "
+                                           f"eigenvalues closest to sigma={sigma:.6g} are "
+                                           f"{np.array2string(np.sort(want), precision=6)}")
+    return labels, V
 
 
 def _common_checks(bad, tag, A, B, W, Q, sorter_name, target, fn, real_sym, tol_res=None):
